@@ -134,6 +134,7 @@ class Engine:
         self.facts = []
         self._fact_ids = set()
         self.undef = []
+        self._spec_bases = []
         self.unfolding = 0
         self.spec_prune = int(os.environ.get('PYVC_SPEC_PRUNE', '0'))
         self.quants = {}
@@ -638,14 +639,22 @@ class Engine:
             e['result'] = result
         s2.env = e
         base = len(s2.pc)
+        # definedness conditions are taken relative to the outermost spec evaluation, so that
+        # the guards established by enclosing `and` / `implies` are part of them
+        ubase = self._spec_bases[0] if self._spec_bases else base
+        self._spec_bases.append(base)
         alts = []
-        for s3, v in self.ev(tree, s2):
-            cond = z3.And(*s3.pc[base:]) if len(s3.pc) > base else z3.BoolVal(True)
-            if isinstance(v, Raise):
-                # the expression is undefined here (a partial operation failed)
-                self.undef.append(cond)
-                continue
-            alts.append((cond, v))
+        try:
+            for s3, v in self.ev(tree, s2):
+                cond = z3.And(*s3.pc[base:]) if len(s3.pc) > base else z3.BoolVal(True)
+                if isinstance(v, Raise):
+                    # the expression is undefined here (a partial operation failed)
+                    self.undef.append(z3.And(*s3.pc[ubase:]) if len(s3.pc) > ubase
+                                      else z3.BoolVal(True))
+                    continue
+                alts.append((cond, v))
+        finally:
+            self._spec_bases.pop()
         if not alts:
             # undefined on every path that could not be pruned: the definedness condition
             # recorded above makes a goal fail and an assumption vacuous
@@ -721,6 +730,8 @@ class Engine:
 
     def module_attr(self, st, modname, name):
         mod = self.src.module(modname)
+        if name in mod.consts and isinstance(mod.consts[name], (set, frozenset)):
+            return V(Opaque('Set'), z3.IntVal(-7))           # a module-level set object
         if name in mod.consts:
             return const_to_v(mod.consts[name])
         if name in mod.funcs:
@@ -738,6 +749,9 @@ class Engine:
             return V(MOD, ('lib', imp[1]))
         if name in mod.exprs:
             e = mod.exprs[name]
+            if isinstance(e, ast.Call) and isinstance(e.func, ast.Name) and e.func.id == 'set' \
+                    and not e.args:
+                return V(Opaque('Set'), z3.IntVal(-7))       # a module-level set object
             if isinstance(e, ast.Tuple) and all(isinstance(x, ast.Name) for x in e.elts):
                 items = [self.lib.builtin(self, x.id) or self.module_attr(st, modname, x.id)
                          for x in e.elts]
